@@ -651,16 +651,86 @@ def json_reader_domain(F, rep):
         rep.unresolved("R5", "json-validation", f"{len(cands)} functions validate an Operation for the JSON reader")
         return
     v = cands[0]
-    rg = _R(F).region(v, depth=2)
+    rg = _R(F).region(v, depth=3, arg_depth=2)
     got = {}
+
+    def resolve(t, depth=0):
+        """the constructed value a projection `field(base, name)` denotes, when base is built in sight"""
+        if not isinstance(t, tuple) or not t or depth > 8 or t[0] != "field":
+            return None
+        base = t[1]
+        if not isinstance(base, tuple) or not base:
+            return None
+        if base[0] == "agg":
+            return dict(base[3]).get(t[2])
+        if base[0] == "dc" and isinstance(base[1], tuple) and base[1]:
+            inner = base[1]
+            if inner[0] == "agg" and inner[2] == base[2]:
+                return dict(inner[3]).get(t[2])
+            if inner[0] == "some" and base[2] == "Some" and t[2] == "0":
+                return inner[1]
+            if inner[0] == "phi":
+                alts = [resolve(("field", ("dc", a, base[2]), t[2]), depth + 1) for a in inner[1]
+                        if not (isinstance(a, tuple) and a and a[0] == "agg" and a[2] != base[2])]
+                alts = [a for a in alts if a is not None]
+                return ("phi", tuple(alts)) if alts else None
+        if base[0] == "field":
+            r = resolve(base, depth + 1)
+            return resolve(("field", r, t[2]), depth + 1) if r is not None else None
+        if base[0] == "phi":
+            alts = [resolve(("field", a, t[2]), depth + 1) for a in base[1]]
+            alts = [a for a in alts if a is not None]
+            return ("phi", tuple(alts)) if alts else None
+        return None
+
+    def subjects(t, depth=0):
+        """the (variant, field) pairs a tested value stands for: through carrier structs (`check.value` of a check built from
+        `*amount`) and through a φ of several variants' fields (`let (amount, action) = match op {..}`)"""
+        if not isinstance(t, tuple) or not t or depth > 8:
+            return []
+        vf = c15._variant_field(t)
+        if vf and vf[1]:
+            return [vf]
+        if t[0] == "phi":
+            return [x for a in t[1] for x in subjects(a, depth + 1)]
+        if t[0] == "field" and isinstance(t[1], tuple) and t[1]:
+            base = t[1]
+            if base[0] == "agg":
+                fv = dict(base[3]).get(t[2])
+                return subjects(fv, depth + 1) if fv is not None else []
+            if base[0] == "tuple" and str(t[2]).isdigit() and int(t[2]) < len(base[1]):
+                return subjects(base[1][int(t[2])], depth + 1)
+            if base[0] == "phi":
+                return [x for a in base[1] for x in subjects(("field", a, t[2]), depth + 1)]
+            if base[0] in ("var",) and len(base) > 2:
+                return subjects(("field", base[2], t[2]), depth + 1)
+            if base[0] == "dc" and isinstance(base[1], tuple) and base[1]:
+                # payload of Some(..)/Ok(..) of a value built elsewhere
+                inner = base[1]
+                if inner[0] == "phi":
+                    return [x for a in inner[1] for x in subjects(("field", ("dc", a, base[2]), t[2]), depth + 1)]
+                if inner[0] == "agg" and inner[2] == base[2]:
+                    fv = dict(inner[3]).get(t[2])
+                    return subjects(fv, depth + 1) if fv is not None else []
+                if inner[0] == "some" and base[2] == "Some" and t[2] == "0":
+                    return subjects(inner[1], depth + 1)
+            if base[0] == "field":
+                # x.0.value: resolve the inner projection first when it lands on a constructed value
+                inner = resolve(base, depth + 1)
+                if inner is not None:
+                    return subjects(("field", inner, t[2]), depth + 1)
+        if t[0] in ("some", "cast", "ref", "deref", "copy") and isinstance(t[-1], tuple):
+            return subjects(t[-1], depth + 1)
+        if t[0] == "var" and len(t) > 2:
+            return subjects(t[2], depth + 1)
+        return []
     for ex in rg.expansions:
         hb, ht, conv = ex["body"], ex["tb"], ex["conv"]
         for i, si, s in hb.assigns():
             rv = s["rv"]
             if rv["k"] == "agg" and rv.get("variant") == "Err" and "Result" in rv["adt"]:
                 for subj, classes in c15._guards(hb, ht, i):
-                    vf = c15._variant_field(conv(subj))
-                    if vf and vf[1]:
+                    for vf in subjects(conv(subj)):
                         got.setdefault(vf, set()).update(classes)
     n = 0
     for (variant, field), classes in sorted(got.items()):
